@@ -145,7 +145,11 @@ class Program:
                 with warnings.catch_warnings():
                     warnings.simplefilter("ignore")
                     tree = ast.parse(text, filename=path)
+            from .inline import inline_private_helpers
+
+            tree, inlined = inline_private_helpers(tree)
             mi = ModuleInfo(m, path, tree, text)
+            mi.inlined_helpers = inlined
             self.modules[m] = mi
             self._index_module(mi)
         self.subclasses: Dict[str, List[str]] = {}
